@@ -310,6 +310,21 @@ func relangSelfCheck() string {
 	if res := reIncludes(`^1\.0$`, []reSup{{Pat: `^v\d\.\d$`}}); res.Holds {
 		return "inclusion self-check failed on an unprefixed pattern"
 	}
+	for _, c := range []struct {
+		pats []string
+		hit  bool
+	}{
+		{[]string{`^\d+\.x$`, `x$`}, true},
+		{[]string{`^\d+$`, `[xX*]`}, false},
+		{[]string{`^\d+(-[a-z]+)?$`, `^[^-]*x`}, false},
+		{[]string{`^\d+(\+[a-z]+)?$`, `^[^-]*x`}, true},
+		{[]string{`^\d+(\+[a-z]+)?$`, `^[^-]*x`, `^[^+]*$`}, false},
+	} {
+		hit, _, why := reIntersects(c.pats...)
+		if why != "" || hit != c.hit {
+			return fmt.Sprintf("intersection self-check failed on %v: got %v %s", c.pats, hit, why)
+		}
+	}
 	for _, c := range qs {
 		var sups []reSup
 		for _, s := range c.sups {
@@ -563,4 +578,97 @@ func init() {
 	register("C07", "", ruleScannerOrder)
 	register("C20", "", ruleScannerOrder)
 	register("C03", "", ruleNumStream)
+}
+
+// ---- R-BOUND-LANG: every valid version can be written after a comparator --------------------------------
+//
+// Where the range parser cuts a constraint into operator and version with a regular expression, the
+// capture group that feeds NewVersion must match every string NewVersion accepts; a narrower group
+// makes "operator directly before a valid version" fail to parse for the versions it leaves out
+// (a prefix spelling, a long component, a build suffix). Decided as language inclusion: each whole-input
+// pattern of the version constructor is included in the group's sub-expression, anchored.
+func ruleBoundLang(p *Prog, r *Report) {
+	n := 0
+	for _, e := range p.Ecos {
+		pats, unresolved := p.ecoGate(e)
+		if len(pats) == 0 || len(unresolved) > 0 || e.NewRng == nil {
+			continue
+		}
+		inCtor := map[*ssa.Function]bool{}
+		for _, f := range p.RepoReachable(e.NewVer) {
+			inCtor[f] = true
+		}
+		type grp struct {
+			ri  *regexInfo
+			idx int
+			pos token.Pos
+		}
+		var grps []grp
+		seenG := map[string]bool{}
+		for _, fn := range p.RepoReachable(e.NewRng) {
+			if inCtor[fn] {
+				continue
+			}
+			for _, b := range fn.Blocks {
+				for _, ins := range b.Instrs {
+					c, ok := ins.(*ssa.Call)
+					if !ok || c.Call.StaticCallee() != e.NewVer || len(c.Call.Args) < 2 {
+						continue
+					}
+					fp := &fieldProv{via: map[string]bool{}}
+					p.provWalk(c.Call.Args[1], fp, map[ssa.Value]bool{}, 0)
+					for _, g := range fp.groups {
+						k := fmt.Sprintf("%s#%d", g.ri.Pattern, g.idx)
+						if !seenG[k] {
+							seenG[k] = true
+							grps = append(grps, grp{g.ri, g.idx, c.Pos()})
+						}
+					}
+				}
+			}
+		}
+		for _, g := range grps {
+			sub := findGroup(g.ri.Re, g.idx)
+			if sub == nil {
+				continue
+			}
+			n++
+			key := fmt.Sprintf("%s: the version group of the constraint pattern takes every valid version (group %d of %s)", e.Name, g.idx, truncPat(g.ri.Pattern))
+			sup := reSup{Pat: "^(?:" + sub.String() + ")$"}
+			bad, und := "", ""
+			for _, gp := range pats {
+				if gp.fold || len(gp.prefixes) != 1 || gp.prefixes[0] != "" {
+					continue // the constructor rewrites its input before this pattern: inclusion of the raw text is not what is needed
+				}
+				inc := reIncludes(gp.ri.Pattern, []reSup{sup})
+				switch {
+				case inc.Unsupported != "":
+					und = inc.Unsupported
+				case !inc.Holds:
+					bad = fmt.Sprintf("the version %q, which %s accepts (pattern %s), is not matched by the group: a comparator written directly before it does not parse", inc.Witness, e.NewVer.Name(), truncPat(gp.ri.Pattern))
+				}
+			}
+			switch {
+			case bad != "":
+				r.Bad("R-BOUND-LANG", key, p.Pos(g.pos), bad)
+			case und != "":
+				r.Und("R-BOUND-LANG", key, p.Pos(g.pos), "inclusion not decided: "+und)
+			default:
+				r.Ok("R-BOUND-LANG", key, p.Pos(g.pos), "every whole-input pattern of the version constructor is included in the group (product automaton)")
+			}
+		}
+	}
+	_ = n
+	r.Floor("R-BOUND-LANG", 4)
+}
+
+func truncPat(s string) string {
+	if len(s) > 60 {
+		return s[:57] + "..."
+	}
+	return s
+}
+
+func init() {
+	register("C02", "", ruleBoundLang)
 }
